@@ -47,16 +47,17 @@ type Out struct {
 }
 
 type Rec struct {
-	ID    int      `json:"id"`
-	Seed  int64    `json:"seed"`
-	Res   int      `json:"res"`
-	Bars  []BarD   `json:"bars"`
-	First int      `json:"first"` // which export is called first on the song: 0 = ToSMF0, 1 = ToSMF1
-	Names int      `json:"names"` // number of Song.TrackNames set
-	Smf0  Out      `json:"smf0"`
-	Smf1  Out      `json:"smf1"`
-	Panic string   `json:"panic"`
-	Feat  []string `json:"feat"`
+	ID     int      `json:"id"`
+	Seed   int64    `json:"seed"`
+	Res    int      `json:"res"`
+	Bars   []BarD   `json:"bars"`
+	First  int      `json:"first"`  // which export is called first on the song: 0 = ToSMF0, 1 = ToSMF1
+	PreRes int      `json:"preres"` // > 0: the song was exported once before at this OTHER resolution, then Song.Ticks was set to Res (a song is still a song after an export)
+	Names  int      `json:"names"`  // number of Song.TrackNames set
+	Smf0   Out      `json:"smf0"`
+	Smf1   Out      `json:"smf1"`
+	Panic  string   `json:"panic"`
+	Feat   []string `json:"feat"`
 }
 
 // ---- driving the real library ----------------------------------------------------------------------------
@@ -120,6 +121,15 @@ func execute(rec *Rec) {
 	go func() {
 		done <- hx.Catch(func() {
 			s := build(rec)
+			if rec.PreRes > 0 {
+				s.Ticks = smf.MetricTicks(rec.PreRes)
+				if rec.First == 0 {
+					s.ToSMF1()
+				} else {
+					s.ToSMF0()
+				}
+				s.Ticks = smf.MetricTicks(rec.Res)
+			}
 			if rec.First == 0 {
 				o0 = convert(s.ToSMF0())
 				o1 = convert(s.ToSMF1())
@@ -170,6 +180,14 @@ func genSong(r *rand.Rand, rec *Rec, big bool) {
 		rec.Res = resChoices[r.Intn(len(resChoices))]
 	}
 	rec.First = r.Intn(2)
+	rec.PreRes = 0
+	if r.Intn(5) == 0 {
+		rec.PreRes = resChoices[r.Intn(len(resChoices))]
+		if rec.PreRes == rec.Res {
+			rec.PreRes = 8 * (1 + r.Intn(4095))
+		}
+		feat["pre_export_other_resolution"] = true
+	}
 	rec.Names = r.Intn(4)
 	nb := 1 + r.Intn(5)
 	switch {
